@@ -19,7 +19,7 @@ SHAPES = [(1, 2), (2, 2), (2, 3)]
 
 
 def cfg_seeded(tier, seed):
-    out = [{'fn': f, 'shape': list(s)} for f in ('poisson', 'poisson-any-sign', 'gaussian', 'read_noise', 'read_noise-int', 'dark', 'dark-fpn', 'rule07', 'rule07-fpn') for s in SHAPES]
+    out = [{'fn': f, 'shape': list(s)} for f in ('poisson', 'poisson-any-sign', 'gaussian', 'read_noise', 'read_noise-int', 'dark', 'dark-fpn', 'rule07', 'rule07-fpn', 'wide-seeds-large-rates') for s in SHAPES]
     return out, len(out), True
 
 
@@ -100,6 +100,28 @@ def run_seeded(W, cfg):
         for i in range(shp[0]):
             for j in range(shp[1]):
                 W.ob_true(f'non-negative [{i},{j}]', out[i, j] >= 0)
+    elif fn == 'wide-seeds-large-rates':
+        # seeds beyond 32 bits and rates beyond the float32 mantissa: numpy integer/float widths, a concrete-only obligation
+        def wide():
+            import numpy as _np
+            frame = _np.full(shp, 50.0)
+            for s0 in (0, 12345, 2 ** 31 + 7):
+                for fnc in (lambda sd: D.shot_noise(frame, method='poisson', seed=sd), lambda sd: D.read_noise(frame, 3.0, seed=sd),
+                            lambda sd: D.dark_current(100.0, shape=shp, fpn_factor=0.5, seed=sd)):
+                    a, b = _np.asarray(fnc(s0), dtype=float), _np.asarray(fnc(s0 + 2 ** 32), dtype=float)
+                    if a.shape != shp or _np.array_equal(a, b):
+                        return False             # two different seeds gave the same draw
+                    if not _np.array_equal(a, _np.asarray(fnc(s0), dtype=float)):
+                        return False
+            ref = _np.random.default_rng(2 ** 40 + 3).normal(loc=frame, scale=3.0) if False else None
+            for rate in (2.0 ** 24 + 1, 3.0e9 + 0.75, 6.0e14 + 3):
+                out = _np.asarray(D.dark_current(rate, shape=shp, fpn_factor=0), dtype=_np.float64)
+                if not _np.all(out == _np.floor(_np.float64(rate))):
+                    return False
+            return True
+        W.ob_concrete('seeds that differ above bit 31 give different draws; a dark frame without pattern noise is floor(rate) also beyond 2^24', wide)
+        x = W.real('unused')
+        W.ob('anchor', x * 1, x)
     elif fn == 'rule07-fpn':
         T = W.real('T', lo=100, hi=300)
         fpn = W.real('fpn', pos=True, hi=1)
